@@ -916,9 +916,15 @@ class FunctionBuilder:
         if arg_name in self.kwonlyargs:
             raise ExistingArgument(f'arg {arg_name!r} already in func {self.name} kwonly arg list')
         if not kwonly:
-            self.args.append(arg_name)
             if default is not NO_DEFAULT:
+                self.args.append(arg_name)
                 self.defaults = (self.defaults or ()) + (default,)
+            else:
+                # defaults are attached from the right: a required
+                # argument goes before the ones that have a default,
+                # otherwise it would take over the last default
+                self.args.insert(len(self.args) - len(self.defaults or ()),
+                                 arg_name)
         else:
             self.kwonlyargs.append(arg_name)
             if default is not NO_DEFAULT:
